@@ -63,12 +63,16 @@ func signDER(k *btcec.PrivateKey, digest []byte) []byte {
 	return append(ecdsa.Sign(k, digest).Serialize(), byte(txscript.SigHashAll))
 }
 
-func mkSet(csv uint32, liquid bool) (*c02Set, error) {
+func mkSet(csv uint32, liquid bool) (*c02Set, error) { return mkSetPre(csv, liquid, 32) }
+
+// mkSetPre builds a set whose payment hash is the SHA256 of a random value of preLen bytes (a real
+// preimage has 32; other lengths probe the length clause of the hash lock).
+func mkSetPre(csv uint32, liquid bool, preLen int) (*c02Set, error) {
 	s := &c02Set{csv: csv, liquid: liquid}
 	s.taker, _ = btcec.NewPrivateKey()
 	s.maker, _ = btcec.NewPrivateKey()
 	s.third, _ = btcec.NewPrivateKey()
-	s.pre = make([]byte, 32)
+	s.pre = make([]byte, preLen)
 	rand.Read(s.pre)
 	h := sha256.Sum256(s.pre)
 	s.hash = h[:]
@@ -173,7 +177,7 @@ func (s *c02Set) mkTx(version int32, seq uint32) *c02Tx {
 	o := make([]byte, 32)
 	rand.Read(o)
 	t.items[itOther32] = o
-	t.items[itPre31] = s.pre[:31]
+	t.items[itPre31] = s.pre[:min(31, len(s.pre))]
 	t.items[itPre33] = append(append([]byte{}, s.pre...), 0x01)
 	t.items[itOne] = []byte{1}
 	t.items[itScript] = s.script
@@ -234,7 +238,7 @@ func stackName(stack []int) string {
 func TestC02(t *testing.T) {
 	r := newRun(t, "C02", "exploration")
 	defer r.Finish()
-	r.Rule = "witness stacks over a 12-item labelled alphabet (valid/invalid signatures of taker, maker, third key; preimage right/wrong/other lengths; empty; 0x01; the script) × sequences × tx versions × CSV values × chains, run on the script bytes built by the real onchain.ParamsToTxScript/GetOutputScript; executors: btcd engine with standard and consensus-only flags (Bitcoin) and the independent template interpreter (Bitcoin: must agree with btcd; Liquid: Elements sighash). distinct = (chain, csv, version, sequence class, accepting stack | rejecting-shape class)"
+	r.Rule = "witness stacks over a 12-item labelled alphabet (valid/invalid signatures of taker, maker, third key; preimage right/wrong/other lengths; empty; 0x01; the script) × sequences × tx versions × CSV values × chains, run on the script bytes built by the real onchain.ParamsToTxScript/GetOutputScript; executors: btcd engine with standard and consensus-only flags (Bitcoin) and the independent template interpreter (Bitcoin: must agree with btcd; Liquid: Elements sighash). In addition scripts are built for payment hashes that are the SHA256 of 0/1/20/31/33/64/65/520-byte values: no witness carrying that value may be accepted (32-byte clause of the hash lock). distinct = (chain, csv, version, sequence class, accepting stack | rejecting-shape class)"
 	r.Assumptions = []string{"btcd txscript is a faithful consensus interpreter", "Elements script rules for these opcodes equal Bitcoin's; Elements segwit-v0 sighash is go-elements HashForWitnessV0"}
 
 	type combo struct {
@@ -385,6 +389,49 @@ func TestC02(t *testing.T) {
 			}
 		})
 	}
+	// hash lock length clause: when the payment hash is the SHA256 of a value that is not 32 bytes long, nobody
+	// knows a 32-byte preimage, so no witness containing that value (and no maker signature) may be accepted
+	lenProbes := 0
+	for _, cs := range []struct {
+		csv    uint32
+		liquid bool
+	}{{1008, false}, {10080, true}, {60, true}} {
+		for _, n := range []int{0, 1, 20, 31, 33, 64, 65, 520} {
+			s, err := mkSetPre(cs.csv, cs.liquid, n)
+			if err != nil {
+				r.Violate("build", "C02|script-build-error", err.Error(), nil)
+				continue
+			}
+			tx := s.mkTx(2, 0)
+			chain := "btc"
+			if cs.liquid {
+				chain = "lbtc"
+			}
+			for _, stack := range [][]int{{itSigT, itPre, itEmpty, itEmpty}, {itSigT, itPre, itEmpty}, {itSigT, itPre}, {itSigT, itPre, itOne, itEmpty}, {itSigX, itSigT, itPre, itEmpty, itEmpty}} {
+				wit := [][]byte{}
+				for _, x := range stack {
+					wit = append(wit, tx.items[x])
+				}
+				wit = append(wit, s.script)
+				r.Eval()
+				lenProbes++
+				ok := s.runTmpl(tx, wit) == nil
+				if !cs.liquid {
+					okCons := s.runBtcd(tx, wit, consensusFlags)
+					if okCons != ok {
+						r.Violate("differential", "C02|evaluator-disagrees-with-btcd", fmt.Sprintf("%s preimage-len %d stack=%s btcd=%v tmpl=%v", chain, n, stackName(stack), okCons, ok), nil)
+					}
+					ok = okCons
+				}
+				r.Seen(fmt.Sprintf("%s/csv%d/hash-of-%d-byte-value/%s/accepted=%v", chain, cs.csv, n, stackName(stack), ok))
+				if ok {
+					r.Violate("preimage-32-bytes", fmt.Sprintf("C02|accepted-non-32-byte-preimage|%s|len%d", chain, n),
+						fmt.Sprintf("%s csv %d: witness %s with a %d-byte value hashing to the payment hash satisfies the script built by the node (script=%x)", chain, cs.csv, stackName(stack), n, s.script), nil)
+				}
+			}
+		}
+	}
+	r.Extra["preimage_length_probes"] = lenProbes
 	r.Extra["accepting_executions"] = accepts
 	r.Extra["canonical_checks"] = canon
 	r.Extra["btcd_vs_template_disagreements"] = disagreements
